@@ -20,10 +20,13 @@
      Aware datetimes are modelled on the start's wall clock with a constant offset; a start in a DST zone with a UTC
      UNTIL is only tested (through the naive twin of the rule), `dtstart=None` (datetime.now()) not at all.
    * `_partial` hides exactly: BYEASTER outside 1583..4098 and under sub-daily FREQ; BYWEEKNO members beyond +-53;
-     WEEKLY passes that reach the week containing 9999-12-31 and WEEKLY+BYSETPOS with a first week before 0001-01-01
-     (both OPEN findings with `_refuted` theorems below); every rule outside spec_wf (two more OPEN findings inside the
-     extended domain RRSpecX.spec_xwf); the exception class for sub-daily FREQ; no-exception / term kinds under the
-     BYEASTER branch of full_guard. *)
+     every rule outside spec_wf (the extended domain RRSpecX.spec_xwf -- never-matching time members, BYMONTHDAY 0 --
+     is compared by the harness: the constructor must raise ValueError or the sequence must be empty; two regression
+     theorems below); the exception class for sub-daily FREQ; no-exception / term kinds under the BYEASTER branch of
+     full_guard.  The four findings of the audit round (week containing 9999-12-31, first week before 0001-01-01,
+     TypeError for out-of-range members, BYMONTHDAY=0) were fixed in /repo (8ced7a9, 3426f68, e1e7505, 55654b4); the
+     model follows the fixed source, the WEEKLY guards that excluded the two boundary weeks are gone, and the former
+     `_refuted` witnesses are the C01_regress_* theorems at the end of the rr part. *)
 From Coq Require Import ZArith List Bool.
 From V Require Import base.Cal gen.RrTables rr.RRBase rr.RRNorm rr.RRMasks rr.RRIter rr.RRSpec
   rr.RRTablesThm rr.RRIterThm rr.RRRegress rr.RRWeekDefs rr.RRWeekThm rr.RRWeekFinal rr.RRWeekCal
@@ -753,8 +756,8 @@ Print Assumptions C01_day_filter_correct_extension.
 
 (* rrule_iter_correct for every WEEKLY rule without BYSETPOS / BYEASTER / nth weekday (BYMONTH, BYMONTHDAY,
    BYYEARDAY, plain BYDAY incl. the default taken from the start, BYWEEKNO in the RFC range; COUNT, UNTIL,
-   any interval, any WKST, time expansion), for every number n of passes whose periods 0 .. n-1 end within
-   9999-12-31 (wlo r k = first day of period k).  _partial: the last, cut-off week of year 9999 is excluded. *)
+   any interval, any WKST, time expansion), for every number n of passes (wlo r k = first day of period k; the
+   last, cut-off week of year 9999 is included since fix 8ced7a9). *)
 (* C01_rrule_iter_correct_weekly_partial: superseded by the headline theorems; still proved in coq/rr, no longer restated here *)
 
 (* ---- sub-daily families (rset builder): the run theorems *)
@@ -871,8 +874,8 @@ Print Assumptions C01_poslist_is_select_pos.
 (* DAILY with BYSETPOS (selection inside the day's time set); EVERY fuel *)
 (* C01_rrule_iter_correct_daily_setpos_partial: superseded by the headline theorems; still proved in coq/rr, no longer restated here *)
 
-(* WEEKLY with BYSETPOS (fix 12b1f51: the first period starts at the week start): weeks within 9999-12-31,
-   and -- with BYSETPOS -- a first week that begins on or after 0001-01-01 *)
+(* WEEKLY with BYSETPOS (fix 12b1f51: the first period starts at the week start; 3426f68 / 8ced7a9: the weeks
+   containing 0001-01-01 / 9999-12-31 consist of their representable days): every rule, every fuel *)
 (* C01_rrule_iter_correct_weekly_setpos_partial: superseded by the headline theorems; still proved in coq/rr, no longer restated here *)
 
 (* ---- YEARLY with BYMONTH and nth weekdays (FREQ=YEARLY;BYMONTH=3;BYDAY=-1SU: every daylight-saving rule) *)
@@ -902,9 +905,7 @@ Print Assumptions C01_day_filter_correct_yearly_bymonth_nth.
 (* C01_rrule_iter_correct_yearly_all_partial: superseded by the headline theorems; still proved in coq/rr, no longer restated here *)
 
 (* ---- SUMMARY for FREQ in YEARLY..DAILY.  coarse_guard r n := spec_wf r, BYWEEKNO within -53..53, no BYEASTER,
-   and: YEARLY or MONTHLY (nothing else), or WEEKLY with BYDAY without numeric prefixes, a first week that does
-   not begin before 0001-01-01 when BYSETPOS is used, and the n passes' weeks ending within 9999-12-31, or DAILY
-   with BYDAY without numeric prefixes.  COUNT, UNTIL, INTERVAL, WKST, BYSETPOS, BYMONTH, BYMONTHDAY, BYYEARDAY,
+   and: YEARLY or MONTHLY (nothing else), or WEEKLY / DAILY with BYDAY without numeric prefixes.  COUNT, UNTIL, INTERVAL, WKST, BYSETPOS, BYMONTH, BYMONTHDAY, BYYEARDAY,
    BYWEEKNO, BYHOUR/BYMINUTE/BYSECOND are free. *)
 (* C01_rrule_iter_correct_coarse_partial: superseded by the headline theorems; still proved in coq/rr, no longer restated here *)
 
@@ -941,16 +942,13 @@ Proof. exact spec_iter_strip. Qed.
 Print Assumptions C01_spec_iter_strip.
 
 (* ==== THE HEADLINE, final form.  For every rule of the specification's domain with FREQ in YEARLY..DAILY, BYWEEKNO
-   within the RFC range and without BYEASTER (WEEKLY: for the n passes whose weeks end within 9999-12-31 and, with
-   BYSETPOS, a first week that does not begin before 0001-01-01): *)
+   within the RFC range and without BYEASTER -- every such rule and every fuel (the two WEEKLY boundary weeks, the
+   one containing 0001-01-01 and the one containing 9999-12-31, are included since fixes 3426f68 / 8ced7a9): *)
 (* (1) the model of rrule.__init__ / _iter / _iterinfo yields exactly the specification's sequence, at equal fuel *)
 Theorem C01_rrule_iter_correct_headline_partial : forall r rl limit n,
   normalize r = Ok rl ->
   spec_wf r = true /\ all_opt (r_byweekno r) weekno_safe = true /\ r_byeaster r = None /\
-  (r_freq r = YEARLY \/ r_freq r = MONTHLY \/
-   (r_freq r = WEEKLY /\ (r_bysetpos r <> None -> 1 <= ws0 r) /\
-    (n <> 0%nat -> wlo r (Z.of_nat n - 1) + 6 <= max_ord)) \/
-   r_freq r = DAILY) ->
+  (r_freq r = YEARLY \/ r_freq r = MONTHLY \/ r_freq r = WEEKLY \/ r_freq r = DAILY) ->
   fst (iterate rl limit n) = fst (spec_iter r limit n).
 Proof. exact rrule_iter_correct_coarse_all. Qed.
 Print Assumptions C01_rrule_iter_correct_headline_partial.
@@ -1082,8 +1080,7 @@ Print Assumptions C01_day_filter_correct_extension_easter.
 
 (* ==== THE HEADLINE for FREQ in YEARLY..DAILY, with and without BYEASTER, in ONE statement: for every rule of the
    specification's domain with BYWEEKNO within the RFC range,
-     - without BYEASTER: YEARLY / MONTHLY / DAILY every rule and every fuel; WEEKLY for the n passes whose weeks end
-       within 9999-12-31 and, with BYSETPOS, a first week that does not begin before 0001-01-01;
+     - without BYEASTER: every rule and every fuel (YEARLY / MONTHLY / WEEKLY / DAILY);
      - with BYEASTER (dateutil extension): the start's year and the year of each of the n passes inside the range of
        C19's Easter theorem, 1583..4098 (WEEKLY: 1584..4097, the cross-year week needs next year's Easter);
    everything else -- COUNT, UNTIL, INTERVAL, WKST, BYSETPOS, BYMONTH, BYMONTHDAY, BYYEARDAY, BYWEEKNO, BYDAY plain /
@@ -1092,10 +1089,7 @@ Print Assumptions C01_day_filter_correct_extension_easter.
 Theorem C01_rrule_iter_correct_full_headline_partial : forall r rl limit n,
   normalize r = Ok rl ->
   (spec_wf r = true /\ all_opt (r_byweekno r) weekno_safe = true /\ r_byeaster r = None /\
-   (r_freq r = YEARLY \/ r_freq r = MONTHLY \/
-    (r_freq r = WEEKLY /\ (r_bysetpos r <> None -> 1 <= ws0 r) /\
-     (n <> 0%nat -> wlo r (Z.of_nat n - 1) + 6 <= max_ord)) \/
-    r_freq r = DAILY)) \/
+   (r_freq r = YEARLY \/ r_freq r = MONTHLY \/ r_freq r = WEEKLY \/ r_freq r = DAILY)) \/
   (spec_wf r = true /\ all_opt (r_byweekno r) weekno_safe = true /\
    ((r_freq r = YEARLY /\ 1583 <= r_y r <= 4098 /\
      forall j, 0 <= j < Z.of_nat n -> r_y r + (j + 1) * r_interval r <= 4098) \/
@@ -1134,59 +1128,62 @@ Theorem C01_rrule_term_kinds_partial : forall r rl limit n,
 Proof. exact rrule_term_kinds_coarse_all. Qed.
 Print Assumptions C01_rrule_term_kinds_partial.
 
-(* ==== OPEN FINDINGS (audit round, 2026-10-02): the faithful model violates the property text at these inputs, each
-   reproduced on the real dateutil (known_findings.json, notes/rr.md).  The witnesses lie in the complement of the
-   guards above.  The extended domain spec_xwf admits never-matching time members and BYMONTHDAY 0. *)
+(* ==== FINDINGS OF THE AUDIT ROUND (2026-10-02), fixed in /repo the same day: 55654b4 (BYMONTHDAY=0 -> ValueError),
+   e1e7505 (__construct_byset skips members outside range(base)), 8ced7a9 (the week containing 9999-12-31 ends there),
+   3426f68 (WEEKLY+BYSETPOS prologue clamped at 0001-01-01).  The model follows the fixed source; the former `_refuted`
+   witnesses are regression theorems (known_findings.json "fixed", corpus/regressions/C01.jsonl keeps the inputs).
+   The extended domain spec_xwf admits never-matching time members and BYMONTHDAY 0. *)
 Theorem C01_spec_wf_xwf : forall r, spec_wf r = true -> spec_xwf r = true.
 Proof. exact spec_wf_xwf. Qed.
 Print Assumptions C01_spec_wf_xwf.
 
-(* F-C01-last-week-9999, BYSETPOS variant: rrule(WEEKLY, dtstart=9999-12-20 09:00, byweekday=all seven, bysetpos=-1)
-   yields [9999-12-26] and raises ValueError; the specified sequence is [9999-12-26; 9999-12-31] *)
-Theorem C01_rrule_iter_refuted_last_week_9999 :
-  exists r rl limit n,
-    normalize r = Ok rl /\ spec_wf r = true /\ r_freq r = WEEKLY /\ r_byeaster r = None /\ r_byweekno r = None /\
-    1 <= ws0 r /\ max_ord < wlo r (Z.of_nat n - 1) + 6 /\
-    fst (iterate rl limit n) = [(ord_of_ymd 9999 12 26, 32400)] /\
-    snd (iterate rl limit n) = TRaised EValue /\
-    fst (spec_iter r limit n) = [(ord_of_ymd 9999 12 26, 32400); (ord_of_ymd 9999 12 31, 32400)].
-Proof. exact rrule_iter_refuted_last_week_9999. Qed.
-Print Assumptions C01_rrule_iter_refuted_last_week_9999.
+(* rrule(WEEKLY, dtstart=9999-12-20 09:00, byweekday=all seven, bysetpos=-1): before 8ced7a9 [9999-12-26] + ValueError *)
+Theorem C01_regress_last_week_9999_setpos :
+  spec_wf raw_last_week_setpos = true /\ max_ord < wlo raw_last_week_setpos 4 + 6 /\
+  match normalize raw_last_week_setpos with
+  | Ok rl => iterate rl 100 5 = ([(ord_of_ymd 9999 12 26, 32400); (ord_of_ymd 9999 12 31, 32400)], TMaxYear) /\
+             fst (iterate rl 100 5) = fst (spec_iter raw_last_week_setpos 100 5)
+  | Err _ => False
+  end.
+Proof. exact regress_last_week_9999_setpos. Qed.
+Print Assumptions C01_regress_last_week_9999_setpos.
 
-(* ... plain variant: every representable occurrence is yielded, then ValueError instead of stopping *)
-Theorem C01_rrule_raises_refuted_last_week_9999 :
-  exists r rl limit n,
-    normalize r = Ok rl /\ spec_wf r = true /\ max_ord < wlo r (Z.of_nat n - 1) + 6 /\
-    fst (iterate rl limit n) = fst (spec_iter r limit n) /\ length (fst (iterate rl limit n)) = 12%nat /\
-    snd (iterate rl limit n) = TRaised EValue /\ snd (spec_iter r limit n) = SExhausted.
-Proof. exact rrule_raises_refuted_last_week_9999. Qed.
-Print Assumptions C01_rrule_raises_refuted_last_week_9999.
+(* ... plain variant: before 8ced7a9 the twelve days and then ValueError instead of stopping *)
+Theorem C01_regress_last_week_9999_plain :
+  spec_wf raw_last_week_plain = true /\
+  match normalize raw_last_week_plain with
+  | Ok rl => fst (iterate rl 100 5) = fst (spec_iter raw_last_week_plain 100 5) /\
+             length (fst (iterate rl 100 5)) = 12%nat /\ snd (iterate rl 100 5) = TMaxYear
+  | Err _ => False
+  end.
+Proof. exact regress_last_week_9999_plain. Qed.
+Print Assumptions C01_regress_last_week_9999_plain.
 
-(* F-C01-year1-setpos-week: rrule(WEEKLY, dtstart=0001-01-03 09:00, wkst=SU, byweekday=all seven, bysetpos=1, count=2) *)
-Theorem C01_rrule_iter_refuted_year1_setpos_week :
-  exists r rl limit n,
-    normalize r = Ok rl /\ spec_wf r = true /\ r_freq r = WEEKLY /\ r_bysetpos r <> None /\ ws0 r < 1 /\
-    fst (iterate rl limit n) = [(ord_of_ymd 1 1 3, 32400); (ord_of_ymd 1 1 7, 32400)] /\
-    fst (spec_iter r limit n) = [(ord_of_ymd 1 1 7, 32400); (ord_of_ymd 1 1 14, 32400)].
-Proof. exact rrule_iter_refuted_year1_setpos_week. Qed.
-Print Assumptions C01_rrule_iter_refuted_year1_setpos_week.
+(* rrule(WEEKLY, dtstart=0001-01-03 09:00, wkst=SU, byweekday=all seven, bysetpos=1, count=2): before 3426f68 the
+   first occurrence was 0001-01-03 *)
+Theorem C01_regress_year1_setpos_week :
+  spec_wf raw_year1_setpos = true /\ ws0 raw_year1_setpos < 1 /\
+  match normalize raw_year1_setpos with
+  | Ok rl => fst (iterate rl 100 5) = [(ord_of_ymd 1 1 7, 32400); (ord_of_ymd 1 1 14, 32400)] /\
+             fst (iterate rl 100 5) = fst (spec_iter raw_year1_setpos 100 5)
+  | Err _ => False
+  end.
+Proof. exact regress_year1_setpos_week. Qed.
+Print Assumptions C01_regress_year1_setpos_week.
 
-(* F-C01-outofrange-typeerror: rrule(HOURLY, dtstart=2020-01-01 09:00, byhour=24) raises TypeError when first iterated *)
-Theorem C01_rrule_raises_refuted_outofrange_typeerror :
-  exists r rl limit n,
-    normalize r = Ok rl /\ spec_xwf r = true /\ spec_wf r = false /\
-    iterate rl limit n = ([], TRaised EType) /\ spec_iter r limit n = ([], SFuel).
-Proof. exact rrule_raises_refuted_outofrange_typeerror. Qed.
-Print Assumptions C01_rrule_raises_refuted_outofrange_typeerror.
+(* rrule(HOURLY, dtstart=2020-01-01 09:00, byhour=24): before e1e7505 TypeError when first iterated *)
+Theorem C01_regress_outofrange_valueerror :
+  spec_xwf raw_hourly_byhour24 = true /\ spec_wf raw_hourly_byhour24 = false /\
+  normalize raw_hourly_byhour24 = Err EValue /\ fst (spec_iter raw_hourly_byhour24 100 5) = [].
+Proof. exact regress_outofrange_valueerror. Qed.
+Print Assumptions C01_regress_outofrange_valueerror.
 
-(* F-C01-bymonthday-zero: rrule(DAILY, dtstart=2020-01-01 09:00, bymonthday=0) yields every day; the specified set is empty *)
-Theorem C01_rrule_iter_refuted_bymonthday_zero :
-  exists r rl limit n,
-    normalize r = Ok rl /\ spec_xwf r = true /\ spec_wf r = false /\
-    fst (iterate rl limit n) = [(ord_of_ymd 2020 1 1, 32400); (ord_of_ymd 2020 1 2, 32400); (ord_of_ymd 2020 1 3, 32400)] /\
-    fst (spec_iter r limit n) = [].
-Proof. exact rrule_iter_refuted_bymonthday_zero. Qed.
-Print Assumptions C01_rrule_iter_refuted_bymonthday_zero.
+(* rrule(DAILY, dtstart=2020-01-01 09:00, bymonthday=0): before 55654b4 every day *)
+Theorem C01_regress_bymonthday_zero :
+  spec_xwf raw_daily_bymonthday0 = true /\ spec_wf raw_daily_bymonthday0 = false /\
+  normalize raw_daily_bymonthday0 = Err EValue /\ fst (spec_iter raw_daily_bymonthday0 3 40) = [].
+Proof. exact regress_bymonthday_zero. Qed.
+Print Assumptions C01_regress_bymonthday_zero.
 
 (* ==== C01_gen_* blocks (translators: gen_rr_init / gen_rr_masks / gen_rr_iter) go BELOW this line; rr adds nothing after it ==== *)
 
@@ -1345,3 +1342,23 @@ Theorem C01_gen_iter_mod_distance_step : forall rl k base byxxx value acc,
   if hit then Some (a, v) else mod_distance_loop k (interval rl) base byxxx v a.
 Proof. exact gen_md_step_lemma. Qed.
 Print Assumptions C01_gen_iter_mod_distance_step.
+
+(* the prologue's WEEKLY+BYSETPOS week start (translated: back = (weekday - wkst) % 7, the max(.., 1) clamp,
+   first.weekday()): init_state = generated week start, then rebuild and the initial time set *)
+Theorem C01_gen_iter_week_start : forall rl,
+  init_state rl =
+  let hour := s_H rl in let minute := s_M rl in let second := s_S rl in
+  let '(year, month, day, wd) :=
+    gen_week_start rl (s_y rl) (s_m rl) (s_d rl) (Cal.weekday (s_y rl) (s_m rl) (s_d rl)) in
+  do ii <- rebuild rl ii_init year month;
+  do ts <-
+    (if freq rl <? HOURLY then
+       match timeset rl with Some l => Ok l | None => Err EType end
+     else if ((HOURLY <=? freq rl) && truthy (byhour rl) && negb (memZ hour (opt_list (byhour rl)))) ||
+             ((MINUTELY <=? freq rl) && truthy (byminute rl) && negb (memZ minute (opt_list (byminute rl)))) ||
+             ((SECONDLY <=? freq rl) && truthy (bysecond rl) && negb (memZ second (opt_list (bysecond rl))))
+          then Ok []
+          else gettimeset rl hour minute second);
+  Ok (mkSt year month day hour minute second wd ii ts (count rl) []).
+Proof. exact gen_week_start_lemma. Qed.
+Print Assumptions C01_gen_iter_week_start.
